@@ -100,7 +100,7 @@ def run_c02(args: dict) -> dict:
             plans.append({"dseed": rng.getrandbits(48), "knobs": decpack.draw_knobs(rng, faults=bool(args.get("faults")), raw=raw)})
     h = hashlib.sha256()
     h.update(json.dumps(oracle, sort_keys=True).encode())
-    faults = {"eio_surfaced": 0, "eio_absorbed": 0, "vanish_surfaced": 0, "fault_not_reached": 0}
+    faults = {"eio_surfaced": 0, "eio_absorbed": 0, "vanish_surfaced": 0, "fault_not_reached": 0, "retries_after_fault": 0}
     for i, plan in enumerate(plans):
         knobs = dict(decpack.KNOB_DEFAULTS)
         knobs.update(plan["knobs"])
@@ -120,21 +120,28 @@ def run_c02(args: dict) -> dict:
             # relaxed oracle, deliberately narrow: the constructor may fail; it may never answer from truncated input
             if kind == "construct_raises":
                 faults["eio_surfaced" if fault["kind"] == "eio" else "vanish_surfaced"] += 1
-                continue
+                # the fault was transient: the same files, unchanged, are read again in the same process
+                retry = dict(delivery)
+                retry["fault"] = None
+                kind, got = observe(retry, expand_limit)
+                faults["retries_after_fault"] += 1
+                out["deliveries"] += 1
+                fault = None  # from here on the ordinary, strict oracle applies
             if not (fired["eio_fired"] or fired["vanish_fired"]):
                 faults["fault_not_reached"] += 1
             else:
                 faults["eio_absorbed"] += 1
+        retried = bool(delivery.get("fault")) and fault is None
         if kind != "ok":
             out["verdict"] = "violation"
-            out["signature"] = {"check": "delivery_" + kind, "exc": got[0], "faulted": bool(fault)}
+            out["signature"] = {"check": ("retry_after_fault_" if retried else "delivery_") + kind, "exc": got[0], "faulted": bool(fault)}
             out["detail"] = {"delivery_index": i, "knobs": {k: v for k, v in knobs.items() if v != decpack.KNOB_DEFAULTS[k]}, "error": got}
             out["failing_plan"] = plan
             break
         diff = first_difference(oracle, got)
         if diff is not None:
             out["verdict"] = "violation"
-            out["signature"] = {"check": "delivery_differs_from_canonical", "exc": None, "faulted": bool(fault)}
+            out["signature"] = {"check": "retry_after_fault_differs_from_canonical" if retried else "delivery_differs_from_canonical", "exc": None, "faulted": bool(fault)}
             out["detail"] = {"delivery_index": i, "knobs": {k: v for k, v in knobs.items() if v != decpack.KNOB_DEFAULTS[k]}, "diff": diff}
             out["failing_plan"] = plan
             break
